@@ -448,6 +448,23 @@ fn seq_family(prop: &str) -> i32 {
         }
         scen.push(stats_json(&format!("{} (4 KiB slices) salt0", crate::hist::Scenario::name(&sc)), &st));
     }
+    // hole punching unsupported: every zeroing request (new clusters, discards) takes the library's
+    // write-zeros fallback, whose requests and buffers must be block aligned like any other (C16)
+    for (g, kind, depth) in [(images::G10, "data", 3usize), (images::G10, "compressed", 2), (images::G12B, "data", 2)] {
+        let img = images::initial_images(&g, &[kind]).remove(0);
+        qcow2_rs::verif::set_order_salt(0);
+        let mut sc = SeqScenario::new(img.clone(), cfg_of(&g, "small"), g.cfg_alt(), "small", images::alphabet(&g, true), oracles.clone());
+        sc.punch_unsupported = true;
+        let lim = BfsLimits { depth: if thorough { depth + 1 } else { depth }, max_states: 3_000_000, deadline: deadline_in(if thorough { 200 } else { 6 }) };
+        let st = bfs(&sc, &lim, &mut viol);
+        states += st.states;
+        trans += st.transitions;
+        outcomes += st.distinct_outcomes;
+        if st.capped || st.depth_completed < st.depth_target {
+            all_complete = false;
+        }
+        scen.push(stats_json(&format!("{} (hole punch unsupported) salt0", crate::hist::Scenario::name(&sc)), &st));
+    }
     // short L1 tables which have to be relocated: one whose full entry count (130) is no multiple of
     // the entries per block, one of two clusters
     for (img, gw, far) in [(crate::extra::short_l1_odd_image(), crate::extra::g9_wide(130), 129u64), (crate::extra::short_l1_two_image(), crate::extra::g9_wide(192), 191u64)] {
@@ -492,6 +509,8 @@ fn seq_family(prop: &str) -> i32 {
         let img = crate::extra::frag_image();
         let mut alpha: Vec<Op> = alloc_alphabet(&gf).into_iter().filter(|o| !matches!(o, Op::Alloc(_) | Op::Free(_))).collect();
         alpha.push(Op::Write { off: 120 * gf.cs(), len: (2 * gf.cs()) as usize, tag: 4 });
+        // five clusters: the partial runs of the retry have different lengths (1, 2, then 3 of the next slice)
+        alpha.push(Op::Write { off: 105 * gf.cs(), len: (5 * gf.cs()) as usize, tag: 5 });
         for cfgn in ["small"] {
             qcow2_rs::verif::set_order_salt(0);
             let sc = SeqScenario::new(img.clone(), cfg_of(&gf, cfgn), gf.cfg_alt(), cfgn, alpha.clone(), oracles.clone());
@@ -1854,6 +1873,8 @@ pub fn alloc_alphabet(g: &Geo) -> Vec<Op> {
         Op::Write { off: 100 * cs, len: (4 * cs) as usize, tag: 1 },
         Op::Write { off: 110 * cs, len: bs as usize, tag: 2 },
         Op::Write { off: 0, len: (2 * cs) as usize, tag: 3 },
+        // a multi-cluster write around the cluster the one-block write above may have mapped already
+        Op::Write { off: 109 * cs, len: (3 * cs) as usize, tag: 4 },
         Op::Discard { off: 0, len: 2 * cs },
         Op::Discard { off: 100 * cs, len: 4 * cs },
         Op::Flush,
